@@ -13,7 +13,12 @@
                            row `cluster_to_row[leaf]`, column `col_names.index(g)`
     `FileOK f`             every leaf of the stored taxonomy has a row inside the
                            arrays, of the width of `col_names`
-    `Ex.tr`, `Ex.files`, `Ex.f0`, `Ex.lk`, `Ex.query`   a small instance
+    `membersOf t ll files leaf`  the cells, over all files, that the taxonomy
+                           lists for `leaf`
+    `memberMean t ll files leaf j`  `Σ v_j / max(1, n)` over those cells
+    `Ex.tr`, `Ex.files`, `Ex.genes`, `Ex.f0`, `Ex.lk`, `Ex.query`   a small instance
+  and from CTM/Lemmas/Markers.lean (property C08): `TreeWF`, `Consulted`,
+  `specGenes`.
 -/
 import CTM.Lemmas.StageFiles
 
@@ -221,6 +226,7 @@ theorem names_consistent_mapper (f : StatsFile) (lk : Lookup) (query : Matrix) (
     ∃ names nd, mapperNode f lk query m p = .ok nd ∧ nd.query.geneIds = names ∧
       nd.reference.geneIds = names ∧
       (∀ g, g ∈ names ↔ g ∈ specGenes f.tree lk query.geneIds m p) ∧ names.Nodup ∧
+      (∀ g ∈ names, g ∈ f.colNames ∧ g ∈ query.geneIds) ∧
       leavesUnder f.tree p = .ok nd.reference.cellIds ∧ nd.query.cellIds = query.cellIds ∧
       nd.reference.data.length = nd.reference.cellIds.length ∧
       nd.query.data.length = query.data.length ∧
@@ -269,6 +275,7 @@ theorem names_consistent_mapper_any_order (σ π : List Nat) (f : StatsFile) (lk
     ∃ names nd, mapperNode (permuteGenes π (permuteRows σ f)) lk query m p = .ok nd ∧
       nd.query.geneIds = names ∧ nd.reference.geneIds = names ∧
       (∀ g, g ∈ names ↔ g ∈ specGenes f.tree lk query.geneIds m p) ∧ names.Nodup ∧
+      (∀ g ∈ names, g ∈ f.colNames ∧ g ∈ query.geneIds) ∧
       leavesUnder f.tree p = .ok nd.reference.cellIds ∧ nd.query.cellIds = query.cellIds ∧
       nd.reference.data.length = nd.reference.cellIds.length ∧
       nd.query.data.length = query.data.length ∧
@@ -277,13 +284,15 @@ theorem names_consistent_mapper_any_order (σ π : List Nat) (f : StatsFile) (lk
       (∀ (k j : Nat) (g : Gene), names[j]? = some g →
         (nd.query.data[k]?.bind (·[j]?)) =
           (query.data[k]?.bind (fun row => (nameToIdx query.geneIds g).bind (row[·]?)))) := by
-  obtain ⟨names, nd, h1, h2, h3, h4, h5, h6, h7, h8, h9, h10, h11⟩ :=
+  obtain ⟨names, nd, h1, h2, h3, h4, h5, hin, h6, h7, h8, h9, h10, h11⟩ :=
     names_consistent_mapper (permuteGenes π (permuteRows σ f)) lk query m p c hT hv hq
       (fileOK_permute σ π f hσ hπ hf) hp hc hcache
-  refine ⟨names, nd, h1, h2, h3, h4, h5, h6, h7, h8, h9, ?_, h11⟩
-  intro i leaf j g hi hj
-  rw [h10 i leaf j g hi hj]
-  exact meanByName_permute σ π f hσ hπ hn hw leaf g
+  refine ⟨names, nd, h1, h2, h3, h4, h5, ?_, h6, h7, h8, h9, ?_, h11⟩
+  · intro g hg
+    exact ⟨(permuteList_mem π f.colNames hπ g).1 (hin g hg).1, (hin g hg).2⟩
+  · intro i leaf j g hi hj
+    rw [h10 i leaf j g hi hj]
+    exact meanByName_permute σ π f hσ hπ hn hw leaf g
 
 /- rows moved by [1,2,0], genes by [2,0,1] (`col_names` = 5, 9, 7): at the root the names now
 come in the order 9, 7 (reference index order), the entries are the same values by name -/
@@ -295,6 +304,70 @@ example : IsPerm [1, 2, 0] Ex.f0.data.length ∧ IsPerm [2, 0, 1] Ex.f0.colNames
         reference := { cellIds := [30, 31, 33], geneIds := [9, 7], data := [[3, 1], [1, 3], [3, 2]] } } ∧
     meanByName Ex.f0 33 9 = some 3 ∧ meanByName Ex.f0 33 7 = some 2 := by
   unfold IsPerm
+  decide +kernel
+
+/-- "Statistics ... and selected markers produced by the pipeline's own stages
+are accepted by the next stage and identify clusters and genes consistently by
+name" — first stage and mapper end to end.  The statistics file is the one the
+model's first stage writes for a validated taxonomy `t` (any chunk size and
+worker count), afterwards rearranged by ANY row permutation `σ` and ANY gene
+permutation `π`; the marker cache is created against the rearranged
+`col_names` and the query's gene names.  Then for every consulted parent the
+mapper builds its matrices without error; query and reference matrix carry the
+same list of gene names (the node's markers `specGenes`), the reference rows are
+the leaves below the node by name, and the reference entry for (leaf `ℓ`, gene
+name `g`) is the mean, over exactly the cells the taxonomy lists for `ℓ` in all
+files, of the value in the column `g` had in the gene list handed to the first
+stage; the query entry is the query's value in the column NAMED `g`. -/
+theorem names_consistent_pipeline (σ π : List Nat) (t : RawTree) (genes : List Gene)
+    (files : List (Nat × List CellRec)) (rows nProc : Nat) (f : StatsFile) (ll : Level)
+    (lk : Lookup) (query : Matrix) (m : Nat) (p : PKey) (c : Cache)
+    (hrows : 1 ≤ rows) (hproc : 1 ≤ nProc) (hT : TreeWF t) (hv : t.validate = .ok ())
+    (hll : t.leafLevel = some ll)
+    (hg : ∀ fl ∈ files, ∀ cell ∈ fl.2, cell.vals.length = genes.length) (hn : genes.Nodup)
+    (h : writeStats t genes files rows nProc = .ok f)
+    (hσ : IsPerm σ f.data.length) (hπ : IsPerm π genes.length)
+    (hq : ∀ row ∈ query.data, row.length = query.geneIds.length)
+    (hp : p ∈ t.allParents) (hc : Consulted t p)
+    (hcache : createCache (some t) lk (permuteList π genes) query.geneIds m = .ok c) :
+    ∃ names nd, mapperNode (permuteGenes π (permuteRows σ f)) lk query m p = .ok nd ∧
+      nd.query.geneIds = names ∧ nd.reference.geneIds = names ∧
+      (∀ g, g ∈ names ↔ g ∈ specGenes t lk query.geneIds m p) ∧ names.Nodup ∧
+      leavesUnder t p = .ok nd.reference.cellIds ∧ nd.query.cellIds = query.cellIds ∧
+      (∀ (i : Nat) (leaf : Leaf) (j : Nat) (g : Gene), nd.reference.cellIds[i]? = some leaf →
+        names[j]? = some g → ∃ col, nameToIdx genes g = some col ∧
+          (nd.reference.data[i]?.bind (·[j]?)) = some (memberMean t ll files leaf col)) ∧
+      (∀ (k j : Nat) (g : Gene), names[j]? = some g →
+        (nd.query.data[k]?.bind (·[j]?)) =
+          (query.data[k]?.bind (fun row => (nameToIdx query.geneIds g).bind (row[·]?)))) := by
+  have hkeys : (t.nodesAt ll).Nodup := hT.nodesNodup ll (leafLevel_mem t ll hll)
+  have hdisj := disjoint_of_strict t (RawTree.strict_of_validate hv) ll hll
+  obtain ⟨hok, hcn, htree, hw, hleaf⟩ :=
+    names_consistent_written t genes files rows nProc f ll hrows hproc hll hkeys hdisj hg h
+  subst htree
+  subst hcn
+  obtain ⟨names, nd, h1, h2, h3, h4, h5, hin, h6, h7, _, _, h10, h11⟩ :=
+    names_consistent_mapper_any_order σ π f lk query m p c hσ hπ hT hv hn hw hq hok hp hc hcache
+  refine ⟨names, nd, h1, h2, h3, h4, h5, h6, h7, ?_, h11⟩
+  intro i leaf j g hi hj
+  have hgn := (hin g (List.mem_of_getElem? hj)).1
+  obtain ⟨col, hcol⟩ := nameToIdx_of_mem f.colNames g hgn
+  have hl : leaf ∈ leavesOf f.tree :=
+    leavesUnder_sub f.tree hT (RawTree.strict_of_validate hv) p hp _ h6 leaf
+      (List.mem_of_getElem? hi)
+  refine ⟨col, hcol, ?_⟩
+  rw [h10 i leaf j g hi hj]
+  exact (hleaf leaf hl).2.2 g col hcol
+
+/- class 10 of the instance (leaves 30, 31; marker 5 = column 1 of `Ex.genes`): means 2 and 4 -/
+example : mapperNode (permuteGenes [2, 0, 1] (permuteRows [1, 2, 0] Ex.f0)) Ex.lk Ex.query 1
+      (some (0, 10)) = .ok
+      { query := { cellIds := [0, 1], geneIds := [5], data := [[4], [8]] },
+        reference := { cellIds := [30, 31], geneIds := [5], data := [[2], [4]] } } ∧
+    nameToIdx Ex.genes 5 = some 1 ∧ memberMean Ex.tr 1 Ex.files 30 1 = 2 ∧
+    memberMean Ex.tr 1 Ex.files 31 1 = 4 ∧
+    (createCache (some Ex.tr) Ex.lk (permuteList [2, 0, 1] Ex.genes) Ex.query.geneIds 1).toBool
+      = true := by
   decide +kernel
 
 end CTM.C18
